@@ -48,6 +48,10 @@ const (
 	idleIntrCleared
 	idleAsyncIntr        // the watchdog goroutine interrupts while the runtime is idle
 	idleAsyncIntrCleared // ... and the owner calls ClearInterrupt before the next call
+	// Interrupt() while idle, then the owner calls a native-only function (parseInt via a Callable: no script instruction
+	// runs, so nothing polls the flag), then the call of the history. The interrupt must not get lost on the way: either
+	// the native-only call already answers with the InterruptedError, or the next script-running call does.
+	idleIntrNative
 )
 
 type callOutcome struct {
@@ -69,6 +73,12 @@ type callOutcome struct {
 	firedDesc     string
 	firedInflight bool
 	intrID        int
+
+	preNative string // idleIntrNative: outcome of the native-only call made between Interrupt() and this call
+
+	// the call returned while the interrupting goroutine was still suspended inside Interrupt() (before its lock
+	// acquisition): Interrupt() was then completed and cleared by the host; the call itself must not have been interrupted
+	lateSplit bool
 }
 
 type faultsim struct {
@@ -300,6 +310,12 @@ func (e *faultsim) doCall(h *Host, c histCall, bodies []genBody, iterSite int) (
 			}
 		}
 	}()
+	h.resumeAt = 0
+	if h.wd[0] != nil && h.wd[0].isParked() {
+		h.wd[0].resume()
+		rt.ClearInterrupt()
+		out.lateSplit = true
+	}
 	out.log = append([]Event(nil), h.log[start:]...)
 	out.res = describe(v)
 	out.err = errDesc(err)
@@ -467,6 +483,8 @@ func (e *faultsim) Run(t *core.Tape, want bool) *core.Result {
 				sb.WriteString("   [Interrupt() from the watchdog goroutine while idle before this call]")
 			case idleAsyncIntrCleared:
 				sb.WriteString("   [Interrupt() from the watchdog goroutine, then ClearInterrupt(), while idle before this call]")
+			case idleIntrNative:
+				sb.WriteString("   [Interrupt() while idle, then a Callable of the native parseInt, before this call]")
 			}
 			if f := plan[i]; f != nil {
 				fmt.Fprintf(&sb, "   FAULT %s", f)
@@ -533,10 +551,31 @@ func (e *faultsim) Run(t *core.Tape, want bool) *core.Result {
 					h.rt.ClearInterrupt()
 				}
 			}
+			preNative := ""
+			if idle[i] == idleIntrNative {
+				h.intrVal = &intrPayload{id: -i - 1}
+				h.rt.Interrupt(h.intrVal)
+				pi, _ := goja.AssertFunction(h.rt.Get("parseInt"))
+				v, err := pi(goja.Undefined(), h.rt.ToValue("42"))
+				var ie *goja.InterruptedError
+				switch {
+				case err == nil && v != nil && v.ToInteger() == 42:
+					preNative = "normal"
+				case errors.As(err, &ie):
+					if got, ok := ie.Value().(*intrPayload); ok && got.id == -i-1 {
+						preNative = "interrupted"
+					} else {
+						preNative = fmt.Sprintf("InterruptedError with the wrong value %v", ie.Value())
+					}
+				default:
+					preNative = fmt.Sprintf("result %v, error %v", v, err)
+				}
+			}
 			if f != nil && f.Kind == FDepth {
 				h.rt.SetMaxCallStackSize(f.Limit)
 			}
 			o := e.doCall(h, c, allBodies, iterSite)
+			o.preNative = preNative
 			if f != nil && f.Kind == FDepth {
 				h.rt.SetMaxCallStackSize(1<<31 - 1)
 				o.state.MaxCallStackSize = 1<<31 - 1
@@ -602,6 +641,8 @@ func (e *faultsim) Run(t *core.Tape, want bool) *core.Result {
 			idle[ci] = idleIntr + S.Draw(2)
 			if e.async && S.Draw(2) == 1 {
 				idle[ci] += 2
+			} else if S.Draw(3) == 2 {
+				idle[ci] = idleIntrNative
 			}
 			continue
 		}
@@ -625,6 +666,10 @@ func (e *faultsim) Run(t *core.Tape, want bool) *core.Result {
 			f.At = int64(S.Draw(int(cf[ci].ticks)))
 			if f.Kind == FAsyncIntr && S.Draw(6) == 5 {
 				f.Limit = 1 // two watchdogs, one right after the other: the error must carry the last value
+			}
+			if f.Kind == FAsyncIntr && S.Draw(3) == 0 {
+				f.Split = 1 + S.Draw(40) // (instrumented build) the interrupting goroutine loses the CPU inside Interrupt()
+				f.Limit = 0
 			}
 		default:
 			if cf[ci].probes == 0 {
@@ -712,7 +757,12 @@ func (e *faultsim) Run(t *core.Tape, want bool) *core.Result {
 			break
 		}
 
+		if idle[i] == idleIntrNative && o.preNative != "normal" && o.preNative != "interrupted" {
+			fail("idle-interrupt-native-call", "Interrupt() while idle followed by a Callable of the native parseInt(\"42\"): "+o.preNative)
+			break
+		}
 		uncatchable, wantIntr := false, 0
+		lateBad := false
 		switch {
 		case idle[i] == idleIntr:
 			uncatchable, wantIntr = true, -i-1
@@ -724,6 +774,11 @@ func (e *faultsim) Run(t *core.Tape, want bool) *core.Result {
 			res.Count("fault.idle-async-intr", 1)
 		case idle[i] == idleAsyncIntrCleared:
 			res.Count("fault.idle-async-intr-then-clear", 1)
+		case idle[i] == idleIntrNative:
+			res.Count("fault.idle-intr-then-native-only-call", 1)
+			if o.preNative == "normal" {
+				uncatchable, wantIntr = true, -i-1
+			}
 		case f != nil && f.Kind == FDepth:
 			var so *goja.StackOverflowError
 			if errors.As(o.errObj, &so) {
@@ -732,13 +787,27 @@ func (e *faultsim) Run(t *core.Tape, want bool) *core.Result {
 			} else {
 				res.Count("depth-limit-not-reached", 1)
 			}
+		case f != nil && o.fired && o.lateSplit:
+			// the call ended before the suspended Interrupt() got as far as raising the flag
+			res.Count("interrupt-completed-after-the-call-returned", 1)
+			var ie *goja.InterruptedError
+			if errors.As(o.errObj, &ie) {
+				fail("interrupt-before-raise", fmt.Sprintf("the call returned an InterruptedError (value %v) although the interrupting goroutine was still suspended inside Interrupt() before its lock acquisition", ie.Value()))
+				lateBad = true
+			}
 		case f != nil && o.fired:
 			res.Count("fault."+faultNames[f.Kind], 1)
+			if f.Split > 0 && syncPointsBuilt {
+				res.Count("interrupting-goroutine-descheduled-inside-Interrupt", 1)
+			}
 			if f.Uncatchable() {
 				uncatchable, wantIntr = true, o.intrID
 			}
 		case f != nil:
 			res.Count("fault-position-not-reached", 1)
+		}
+		if lateBad {
+			break
 		}
 		if o.fired || uncatchable {
 			sigParts = append(sigParts, fmt.Sprintf("%s/%s/%s/%s", fsig, kindName, where, o.firedDesc))
@@ -781,7 +850,7 @@ func (e *faultsim) Run(t *core.Tape, want bool) *core.Result {
 			}
 			continue
 		}
-		if f != nil && o.fired {
+		if f != nil && o.fired && !o.lateSplit {
 			// catchable fault: up to the fault both runs are the same execution; the continuation is the script's own
 			// catch/finally logic (judged by ctlsim); only the invariant and the later calls are judged here.
 			if d := prefixDivergence(o.log[:o.firedLog], cf[i].log); d >= 0 {
